@@ -79,6 +79,7 @@ BASEF = z3.Function("BASEF", SI, SI)                # the characters of s that o
 BCUT = z3.Function("BCUT", SI, I, I, SI)            # base characters that columns a..b-1 of s show (a cut double-width one as a blank)
 BVIEW = z3.Function("BVIEW", SCh, SC)               # cells of the column-occupying characters of a run list
 RUNCUT = z3.Function("RUNCUT", SCh, I, I, SC)       # cells that columns a..b-1 of a run list show (fold of BCUT over the runs)
+FLAT = z3.Function("FLAT", SF, SC)                  # cells of a sequence of FmtStr values, one after the other
 EXTRA_VIEWS = [False]                               # emit BVIEW instances with the VIEW ones (switched on per contract)
 
 
@@ -175,6 +176,12 @@ class Lemmas:
     def str_concat_cells(res, parts, atts):
         return [CELLS(res, atts) == z3.Concat(*[CELLS(p, atts) for p in parts])] + \
                [z3.Length(CELLS(p, atts)) == z3.Length(p) for p in parts]
+
+    @staticmethod
+    def flat_append(new, old, f):
+        """new == old ++ [f] (sequence of FmtStr): FLAT distributes; FLAT of the empty sequence is empty"""
+        return [FLAT(new) == z3.Concat(FLAT(old), VIEW(FmtS.chunks(f))), FLAT(z3.Empty(SF)) == z3.Empty(SC),
+                z3.Length(new) == z3.Length(old) + 1]
 
     # ---- character lists (list of 1-character strings modelled as the string of their concatenation)
     @staticmethod
